@@ -166,7 +166,7 @@ func VerifC15() {
 }
 
 // VerifC15Long: longer histories of one machine: four rounds, each an optional operation (replace the
-// spec, replace the state) followed by a message that flips the machine between its two nodes - so that a
+// spec - or create the machine again after a deletion -, replace the state, delete) followed by a message that flips the machine between its two nodes - so that a
 // state it was in two or three reports ago comes back (what the suppression of repeated reports could
 // confuse).
 func VerifC15Long() {
@@ -182,14 +182,22 @@ func VerifC15Long() {
 	}
 	for r := 0; r < rounds; r++ {
 		rt := "r" + string(rune('0'+r))
-		switch verif.Choose(rt+".op", 3) {
+		switch verif.Choose(rt+".op", 4) {
 		case 1:
-			c.SetMachine(ctx, "a", c15Source(0), nil) // the same spec again (a "replacement" all the same)
+			// the same spec again (a "replacement" all the same); creates the machine anew if it was deleted -
+			// with exactly the record it was first reported with
+			c.SetMachine(ctx, "a", c15Source(0), nil)
 		case 2:
-			c.SetMachine(ctx, "a", nil, &core.State{NodeName: "start", Bs: match.NewBindings()})
+			if _, have := c.Machines["a"]; have {
+				c.SetMachine(ctx, "a", nil, &core.State{NodeName: "start", Bs: match.NewBindings()})
+			}
+		case 3:
+			if _, have := c.Machines["a"]; have {
+				c.DeleteMachine(ctx, "a")
+			}
 		}
 		var msg interface{} = map[string]interface{}{"go": "x"}
-		if verif.Choose(rt+".msg", 3) == 2 {
+		if verif.Choose(rt+".msg", 2) == 1 {
 			msg = map[string]interface{}{"other": 1.0}
 		}
 		res, err := c.ProcessMsg(ctx, msg)
